@@ -14,10 +14,13 @@ Two tables are extracted from the code on every run and compared:
 An ordered pair (A, B) with A tight-after or B tight-before is *joined* when maximal munch over the extracted spellings
 does not split text(A) + text(B) back into exactly [text(A), text(B)].
 
-Under-approximation (stated, not hidden): arms that are tight under a condition on the parent / grandparent kind are not
-evaluated (a `:` is tight-before except in one context - that the condition holds inside a token tree is not derived),
-and word-like tokens (identifiers, keywords, literals) are not modelled.  The rule therefore misses joins, it does not
-invent them.
+Arms that are tight under a condition on the parent / grandparent kind are evaluated for the position every token of a
+macro token tree has - parent: its terminal, grandparent: TokenTreeLeaf - by a small partial evaluator of the function's MIR
+over the value domain {kind, Some(kind), None, integer}; promoted constants (`Some(SyntaxKind::X)`) are evaluated the same
+way, and any value the evaluator does not know makes the arm "not tight".
+
+Under-approximation (stated, not hidden): word-like tokens (identifiers, keywords, literals) are not modelled, and a
+condition the evaluator cannot follow counts as not tight.  The rule therefore can miss joins, it does not invent them.
 """
 from .lib import op_local, op_const, last_seg
 
@@ -165,6 +168,134 @@ def unconditional_true_kinds(F, fn, kind_names):
     return out if found else None
 
 
+class _Abort(Exception):
+    pass
+
+
+def _place_value(env, p):
+    if isinstance(p, int):
+        return env.get(p)
+    v = env.get(p[0])
+    for e in p[1]:
+        if v is None:
+            return None
+        if e == "*":
+            continue
+        if isinstance(e, list) and e[0] == "d":
+            if v[0] == "some" and e[1] == "Some":
+                continue
+            return None
+        if isinstance(e, list) and e[0] == "f":
+            if v[0] == "some" and e[1] == 0:
+                v = v[1]
+                continue
+            return None
+        return None
+    return v
+
+
+def _eval_body(blocks, promoted, calls_model, kind_index, limit=400):
+    """Evaluates a straight MIR body over the small value domain kind / some / none / int; None when anything is unknown."""
+    env = {}
+
+    def opv(o):
+        if o[0] in ("c", "m"):
+            return _place_value(env, o[1])
+        if o[0] == "k":
+            if o[1] == "int":
+                return ("int", int(o[2]))
+            if o[1] == "promoted":
+                return _eval_body(promoted[o[2]]["blocks"], [], calls_model, kind_index)
+        return None
+
+    bb, steps = 0, 0
+    while steps < limit:
+        steps += 1
+        b = blocks[bb]
+        for st in b["s"]:
+            if st[0] != "a" or not isinstance(st[1], int):
+                continue
+            rv, v = st[2], None
+            if rv[0] == "use":
+                v = opv(rv[1])
+            elif rv[0] == "ref":
+                v = _place_value(env, rv[1])
+            elif rv[0] == "cast":
+                v = opv(rv[2])
+            elif rv[0] == "disc":
+                x = _place_value(env, rv[1])
+                if x is not None and x[0] == "kind":
+                    v = ("int", kind_index[x[1]])
+                elif x is not None and x[0] in ("some", "none"):
+                    v = ("int", 1 if x[0] == "some" else 0)
+            elif rv[0] == "agg" and rv[1] == "adt":
+                if rv[2].endswith("kind::SyntaxKind"):
+                    v = ("kind", rv[4])
+                elif rv[2] == "core::option::Option":
+                    v = ("some", opv(rv[3][0])) if rv[4] == "Some" else ("none",)
+                    if v[0] == "some" and v[1] is None:
+                        v = None
+            elif rv[0] == "un" and rv[1] == "Not":
+                x = opv(rv[2])
+                v = ("int", 1 - x[1]) if x is not None and x[0] == "int" else None
+            elif rv[0] == "bin" and rv[1] in ("Eq", "Ne"):
+                x, y = opv(rv[2]), opv(rv[3])
+                if x is not None and y is not None:
+                    v = ("int", int((x == y) == (rv[1] == "Eq")))
+            env[st[1]] = v
+        t = b["t"]
+        if t[0] == "goto":
+            bb = t[1]
+        elif t[0] == "ret" or t[0] == "return":
+            return env.get(0)
+        elif t[0] == "switch":
+            x = opv(t[1])
+            if x is None or x[0] != "int":
+                return None
+            nxt = t[3]
+            for val, tb in t[2]:
+                if int(val) == x[1]:
+                    nxt = tb
+            bb = nxt
+        elif t[0] == "call":
+            name = last_seg(t[1].get("path", ""))
+            args = [opv(a) for a in t[2]]
+            if name in calls_model:
+                v = calls_model[name]
+            elif name in ("eq", "ne") and len(args) == 2 and "PartialEq" in (t[1].get("path", "") + t[1].get("via", "")):
+                if args[0] is None or args[1] is None:
+                    return None
+                v = ("int", int((args[0] == args[1]) == (name == "eq")))
+            else:
+                return None
+            d = t[3]
+            if isinstance(d, int):
+                env[d] = v
+            else:
+                return None
+            if t[4] is None:
+                return None
+            bb = t[4]
+        elif t[0] == "drop":
+            bb = t[2]
+        else:
+            return None
+    return None
+
+
+def tight_in_token_tree(fn, kind, kind_index):
+    """True iff the formatter function returns true for a token of `kind` whose parent is its terminal and whose grandparent is a
+    TokenTreeLeaf (the position of every token inside a macro token tree); None / False otherwise."""
+    model = {"kind": ("kind", kind),
+             "parent_kind": ("some", ("kind", "Terminal" + kind[len("Token"):])),
+             "grandparent_kind": ("some", ("kind", "TokenTreeLeaf"))}
+    try:
+        v = _eval_body(fn.blocks, fn.d.get("promoted") or [], model, kind_index)
+    except (_Abort, KeyError, IndexError, TypeError):
+        return None
+    return v == ("int", 1)
+
+
 def run(ctx, F_fmt):
     """Records the R11.10 obligations.  F_fmt: facts of the formatter (with the syntax ADTs)."""
     FP = ctx.load(["cairo_lang_parser"], adts_only=["cairo_lang_syntax"])
@@ -191,7 +322,17 @@ def run(ctx, F_fmt):
         ctx.ob("R11.10", "tight-%s:kind-dispatch" % side, ks is not None,
                "unconditionally tight %s: %s" % (side, sorted(ks)) if ks is not None else
                "the dispatch on self.kind(db) was not found in force_no_space_%s" % side, fn.where())
-        sides[side] = (ks or set(), fn)
+        ks = set(ks or ())
+        kind_index = {n: i for i, n in enumerate(kind_names)}
+        cond = set()
+        if "TokenTreeLeaf" in kind_index:
+            for k in text_of:
+                if k not in ks and ("Terminal" + k[len("Token"):]) in kind_index and tight_in_token_tree(fn, k, kind_index):
+                    cond.add(k)
+        ctx.ob("R11.10", "tight-%s:in-token-tree" % side, True,
+               "tight %s under a condition that holds for a token of a macro token tree (kind, parent terminal, grandparent "
+               "TokenTreeLeaf evaluated through the function): %s" % (side, sorted(cond)), fn.where())
+        sides[side] = (ks | cond, fn)
     ctx.floor("unconditionally tight kinds", len(sides["after"][0]) + len(sides["before"][0]), 6)
     n_pairs = 0
     for a, ta in sorted(text_of.items()):
@@ -204,9 +345,10 @@ def run(ctx, F_fmt):
             if got == [ta, tb]:
                 continue
             why = "`%s` is tight after" % ta if tight[0] else "`%s` is tight before" % tb
+            why += " in a macro token tree"
             fn = sides["after"][1] if tight[0] else sides["before"][1]
             ctx.ob("R11.10", "glue:%s+%s" % (a, b), False,
-                   "%s whatever the context, so `%s %s` is written `%s%s`, which the lexer reads as %s: inside a macro token "
+                   "%s, so `%s %s` is written `%s%s`, which the lexer reads as %s: inside a macro token "
                    "tree (where any two tokens can be neighbours) the code tokens change" % (why, ta, tb, ta, tb, got), fn.where())
     for side in ("after", "before"):
         for k in sorted(sides[side][0]):
